@@ -409,7 +409,7 @@ void RescaledHmmLikelihood::computeDForward_() const
 
   for (size_t j = 0; j < nbStates_; j++)
   {
-    dLikelihood_[0][j] = (dTmp[j] * scales_[0] - tmp[j] * dScales_[0]) / pow(scales_[0], 2);
+    dLikelihood_[0][j] = (dTmp[j] - tmp[j] * (dScales_[0] / scales_[0])) / scales_[0];
   }
 
   // Recursion:
@@ -465,7 +465,7 @@ void RescaledHmmLikelihood::computeDForward_() const
 
     for (size_t j = 0; j < nbStates_; j++)
     {
-      dLikelihood_[i][j] = (dTmp[j] * scales_[i] - tmp[j] * dScales_[i]) / pow(scales_[i], 2);
+      dLikelihood_[i][j] = (dTmp[j] - tmp[j] * (dScales_[i] / scales_[i])) / scales_[i];
     }
   }
 
@@ -529,8 +529,8 @@ void RescaledHmmLikelihood::computeD2Forward_() const
 
   for (size_t j = 0; j < nbStates_; j++)
   {
-    d2Likelihood_[0][j] = d2Tmp[j] / scales_[0] - (d2Scales_[0] * tmp[j] + 2 * dScales_[0] * dTmp[j]) / pow(scales_[0], 2)
-        +  2 * pow(dScales_[0], 2) * tmp[j] / pow(scales_[0], 3);
+    double r1 = dScales_[0] / scales_[0], r2 = d2Scales_[0] / scales_[0];
+    d2Likelihood_[0][j] = (d2Tmp[j] - r2 * tmp[j] - 2 * r1 * dTmp[j] + 2 * r1 * r1 * tmp[j]) / scales_[0];
   }
 
   // Recursion:
@@ -590,8 +590,8 @@ void RescaledHmmLikelihood::computeD2Forward_() const
 
     for (size_t j = 0; j < nbStates_; j++)
     {
-      d2Likelihood_[i][j] = d2Tmp[j] / scales_[i] - (d2Scales_[i] * tmp[j] + 2 * dScales_[i] * dTmp[j]) / pow(scales_[i], 2)
-          +  2 * pow(dScales_[i], 2) * tmp[j] / pow(scales_[i], 3);
+      double r1 = dScales_[i] / scales_[i], r2 = d2Scales_[i] / scales_[i];
+      d2Likelihood_[i][j] = (d2Tmp[j] - r2 * tmp[j] - 2 * r1 * dTmp[j] + 2 * r1 * r1 * tmp[j]) / scales_[i];
     }
   }
 
